@@ -683,6 +683,11 @@ def forwarded(res, name, fn, heads):
                 if "monitors" not in r or r - {"monitors"}:
                     res.bad("DRV-FORWARD", "%s: the dictionary given to _parse_monitors is built from %s, not from the caller's `monitors` argument (the caller's monitors never run; its run options are taken for monitors)" % (name, ["`%s`" % x for x in sorted(r)] or "no caller argument"), e[1], name + "-monitors")
                     return False
+            elif e[0] == "self-mutated":
+                r = _roles_in(e[4])
+                if r:
+                    res.bad("DRV-FORWARD", "%s: the caller's `%s` argument is merged INTO the solver's own `self.%s` (%s, line %d): what one call asks for stays in force for every later solve()/restart() of the object (a `dtlocal` given to a steady pre-computation makes the later time-accurate run use local time steps)" % (name, sorted(r)[0], e[1], e[2], e[3]), e[3], name + "-sticky-" + e[1])
+                    return False
             elif e[0] == "switch":
                 if e[1] in ROLE_NAMES and e[1] != "directives" and e[1] != "stop":
                     res.bad("DRV-FORWARD", "%s: the option switch %r is read from the caller's `%s` argument, not from `directives`" % (name, e[2], e[1]), e[3], name + "-switch")
@@ -757,5 +762,7 @@ def analyse_entry_points(proj, res):
                 break
         if okreset:
             okreset = forwarded(res, name, fn, heads)
+            if okreset:
+                res.ok("DRV-FORWARD", "%s: `stop` reaches _check_end (with the last save time as only addition), `monitors` reaches _parse_monitors, the option switches are read from this call's `directives`; nothing of the call is merged into the solver's own containers" % name)
         if okreset:
             res.ok("DRV-RESET", "%s resets _nit := 0, _itstart := %s and delegates to _solve with the caller's field, CFL, save times" % (name, "0" if name == "solve" else "max(f.it, 0)"))
